@@ -740,7 +740,9 @@ func typeOfFn(x ast.ApplyFn, varRanges map[ast.Variable]ast.BaseTerm, nameTrie s
 		fallthrough
 	case symbols.CollectDistinct.Symbol:
 		if len(x.Args) == 1 {
-			if v, ok := x.Args[0].(ast.Variable); ok {
+			// A variable without a type (defined later in the transform, or bound by a mode only)
+			// must not put a nil into the type expression; boundOfArg below says /any for it.
+			if v, ok := x.Args[0].(ast.Variable); ok && varRanges[v] != nil {
 				return ast.ApplyFn{symbols.ListType, []ast.BaseTerm{varRanges[v]}}
 			}
 		}
